@@ -133,7 +133,7 @@ def toOPArg : List Sexp → Option (Option PArg)
   | _ => none
 
 def toDefArgs : Sexp → Option DefArgs
-  | .node [.atom "def", .node (.atom "posonly" :: po), .node (.atom "args" :: ar), .node (.atom "vararg" :: va),
+  | .node [.atom "def", .node [.atom "kind", .atom knd], .node (.atom "posonly" :: po), .node (.atom "args" :: ar), .node (.atom "vararg" :: va),
            .node (.atom "kwonly" :: ko), .node (.atom "kwdefaults" :: kd), .node (.atom "kwarg" :: kw),
            .node (.atom "defaults" :: df), .node (.atom "ret" :: rt), .node (.atom "method" :: me),
            .node [.atom "future", .atom fu]] => do
@@ -145,7 +145,10 @@ def toDefArgs : Sexp → Option DefArgs
       | [] => some none
       | [.atom c] => c.toNat?.map some
       | _ => none
-    some { posonly := ← po.mapM toPArg, args := ← ar.mapM toPArg, vararg := ← toOPArg va,
+    let kind ← match knd with
+      | "plain" => some FnKind.plain | "coro" => some FnKind.coro | "agen" => some FnKind.asyncGen | "gen" => some FnKind.gen
+      | _ => none
+    some { kind := kind, posonly := ← po.mapM toPArg, args := ← ar.mapM toPArg, vararg := ← toOPArg va,
            kwonly := ← ko.mapM toPArg, kwDefaults := ← kd.mapM toODflt, kwarg := ← toOPArg kw,
            defaults := ← df.mapM toDflt, returns := ret, methodOf := me, future := fu == "1" }
   | _ => none
@@ -178,7 +181,8 @@ def showISig (s : ISig) : String :=
 def sigClasses (env : NameEnv) (d : DefArgs) : String :=
   let anns := d.allArgs.filterMap (·.ann) ++ d.returns.toList
   let cs := (if anns.any D13_starUnpack then ["starUnpack"] else []) ++
-    (if D13_reboundName env d then ["reboundName"] else [])
+    (if D13_reboundName env d then ["reboundName"] else []) ++
+    (if D13_asyncGenInferred d then ["asyncGenInferred"] else [])
   if cs.isEmpty then "-" else ",".intercalate cs
 
 def sigRClasses (env : NameEnv) (d : DefArgs) : String :=
